@@ -2,6 +2,7 @@ package props
 
 import (
 	"fmt"
+	"math/rand"
 	"sort"
 	"strings"
 
@@ -74,6 +75,25 @@ func storeSig(name string) string {
 		return ""
 	}
 	return "/" + name
+}
+
+// addRepeatedKeys appends, to lists of the tree, a second entry carrying the key of an entry already there (other leaves may differ).
+func addRepeatedKeys(r *rand.Rand, s *dp.Schema, d *dp.DNode, do dp.DataOpts) int {
+	n := 0
+	for _, l := range d.Lists {
+		if len(l.Entries) > 0 && r.Intn(2) == 0 {
+			e := l.Entries[r.Intn(len(l.Entries))]
+			l.Entries = append(l.Entries, dp.Derive(r, s, e, l.S.Children, do))
+			n++
+		}
+		for _, e := range l.Entries {
+			n += addRepeatedKeys(r, s, e, do)
+		}
+	}
+	for _, k := range d.Kids {
+		n += addRepeatedKeys(r, s, k, do)
+	}
+	return n
 }
 
 func dupKeys(d *dp.DNode, path string, out *[]string) {
@@ -239,6 +259,34 @@ func (p c18) Run(c *core.Ctx, idx int) {
 			if run(func(sel *node.Selection) error { return sel.ReplaceFrom(src) }) {
 				return
 			}
+		case opk == 8 && kind == "container":
+			// delete a container and bring it back with one upsert whose lists name a key twice: the list is created by the very edit
+			// that has to find the first occurrence again (entries are matched by key)
+			content := dp.Derive(r, s, mn, mn.S.Children, do)
+			ndup := addRepeatedKeys(r, s, content, do)
+			desc = fmt.Sprintf("Delete container %q, then UpsertFrom parent with {%s} (%d repeated keys)", pth.String(), head(oneLineTree(s, content), 200), ndup)
+			model.DeleteAt(pth)
+			holder := dp.NewDNode(mparent.S)
+			holder.Kids[last.Name] = content
+			if e := dp.Apply(s, dp.Upsert, holder, mparent, false); e != dp.OK {
+				c.Violate("harness/model-recreate", "model upsert after delete failed: %v", e)
+				return
+			}
+			src := dp.NewStore(s, nil).NodeAt(holder)
+			removed = nil
+			if run(func(sel *node.Selection) error {
+				parent := sel.Parent()
+				if err := sel.Delete(); err != nil {
+					return err
+				}
+				if parent == nil {
+					return fmt.Errorf("verif: container selection without parent")
+				}
+				return parent.UpsertFrom(src)
+			}) {
+				return
+			}
+			kind, pos = "container", fmt.Sprintf("recreate-dup%d", min(ndup, 2))
 		case kind == "list" || (lastDeleted != nil && opk == 9): // insert / re-insert an entry
 			var lst *dp.DList
 			var lpath dp.DPath
